@@ -1,10 +1,13 @@
+import StepModel.Generated.RegistryGen
 /-!
 # Model of the public walking / query API of `Registry` (src/clstepcore/Registry.cc)
 
 Three hash tables (entities, types, schemas), each with ONE cursor stored in the registry (`cur_entity`, `cur_type`,
 `cur_schema`): `ResetEntities/NextEntity`, `ResetTypes/NextType`, `ResetSchemas/NextSchema` move the cursor of their
-own kind; `GetEntityCnt`, `GetFullEntCnt`, `FindEntity`, `FindType`, `FindSchema`, `ObjCreate` are read-only (a maintained
-counter resp. `SC_HASHfind`, which has no cursor).  The lists are in the table's iteration order (observed by the
+own kind; `GetEntityCnt`, `GetFullEntCnt`, `FindEntity`, `FindType`, `FindSchema`, `ObjCreate` answer from a maintained counter resp.
+`SC_HASHfind`, which has no cursor; which cursors their bodies nevertheless write (directly or through the member functions they
+call) is regenerated from Registry.cc (`Generated.queryCursorWrites`): a query operation of the model moves exactly those cursors
+— to the end of the table, as a walk inside the function would leave them.  The lists are in the table's iteration order (observed by the
 harness with a reference walk; the order itself is not modelled).
 -/
 namespace StepModel.Registry
@@ -52,6 +55,19 @@ inductive Res
   | found (b : Bool)
   deriving DecidableEq, Repr, Inhabited
 
+def kindOfName : String → Option Kind
+  | "ent" => some .ent | "typ" => some .typ | "sch" => some .sch | _ => none
+
+/-- the cursors the query function `fn` writes (regenerated) -/
+def moves (fn : String) : List Kind :=
+  ((StepModel.Generated.queryCursorWrites.lookup fn).getD []).filterMap kindOfName
+
+/-- a walk to the end of each of these tables -/
+def walkAll (st : State) (ks : List Kind) : State := ks.foldl (fun st k => st.setCur k (st.list k).length) st
+
+def findFn : Kind → String
+  | .ent => "FindEntity" | .typ => "FindType" | .sch => "FindSchema"
+
 /-- the kind whose cursor an operation may move -/
 def Op.walkKind : Op → Option Kind
   | .reset k => some k | .next k => some k | .nextAll k => some k | _ => none
@@ -63,10 +79,10 @@ def step (st : State) : Op → State × Res
     | some n => (st.setCur k (st.cur k + 1), .name n)
     | none => (st, .null)
   | .nextAll k => (st.setCur k (max (st.cur k) (st.list k).length), .names ((st.list k).drop (st.cur k)))
-  | .entityCnt => (st, .num st.ents.length)
-  | .fullEntCnt => (st, .num st.ents.length)
-  | .find k n => (st, .found ((st.list k).contains n))
-  | .objCreate n => (st, .found (st.ents.contains n))
+  | .entityCnt => (walkAll st (moves "GetEntityCnt"), .num st.ents.length)
+  | .fullEntCnt => (walkAll st (moves "GetFullEntCnt"), .num st.ents.length)
+  | .find k n => (walkAll st (moves (findFn k)), .found ((st.list k).contains n))
+  | .objCreate n => (walkAll st (moves "ObjCreate"), .found (st.ents.contains n))
 
 /-- answers of a whole operation sequence -/
 def run : List Op → State → List Res
